@@ -25,7 +25,7 @@ def lg_cases(draw, tier="quick"):
     domk = draw(st.sampled_from(["default", "cont1d", "kl", "step", "default", "cont1d"]))
     dom = draw(gen.geom1d_spec(n, [domk]))
     npar = gen.geom_par_dim(dom)
-    c = {"n": n, "m": m, "dom": dom, "backing": draw(st.sampled_from(["matrix", "function", "function", "view", "roll"])),
+    c = {"layout": draw(st.sampled_from(gen.LAYOUTS)), "n": n, "m": m, "dom": dom, "backing": draw(st.sampled_from(["matrix", "function", "function", "view", "roll"])),
          "A": draw(gen.mat(m, n, -1, 1)),
          "noise_form": draw(st.sampled_from(["cov_scalar", "cov_vector", "cov_matrix", "prec_scalar", "prec_matrix", "sqrtprec_matrix", "sqrtcov_vector"])),
          "prior_form": draw(st.sampled_from(["cov_scalar", "cov_vector", "cov_matrix", "prec_vector", "sqrtprec_matrix", "sqrtcov_scalar"])),
@@ -129,7 +129,7 @@ def build(c):
         J = lambda x: Am + cc * (1 - np.tanh(Am @ x) ** 2)[:, None] * Am
         model = cuqi.model.Model(F, m, dom, jacobian=J)
     elif c["backing"] == "matrix":
-        model = cuqi.model.LinearModel(Am, range_geometry=m, domain_geometry=dom)
+        model = cuqi.model.LinearModel(gen.relayout(Am, c.get("layout", "plain")), range_geometry=m, domain_geometry=dom)
     elif c["backing"] == "roll":
         model = cuqi.model.LinearModel(lambda x: x - 0.6 * np.roll(x, 1, axis=-1), lambda y: y - 0.6 * np.roll(y, -1, axis=-1),
                                        range_geometry=m, domain_geometry=dom)
@@ -163,7 +163,7 @@ def build(c):
     if c.get("compute_cov"):
         x.compute_cov()
         y.compute_cov()
-    BP = cuqi.problem.BayesianProblem(y, x, y=A(c["data"]) * sc)
+    BP = cuqi.problem.BayesianProblem(y, x, y=gen.relayout(A(c["data"]) * sc, c.get("layout", "plain")))
     return BP, model, Se, Sx, mu
 
 
